@@ -80,7 +80,10 @@ def strategy_impl(draw, tier):
     phi_dtype = draw(st.sampled_from(["float64", "float64", "float64", "float32"]))
     phi = draw(gen.data_values(lead + [L], elements=st.integers(-512, 512).map(lambda k: k / 8.0) if phi_dtype == "float32" else None))
     level = draw(st.sampled_from(["kernel", "api", "api"]))
-    case = {"L": L, "lead": lead, "method": method, "bypass": bypass, "shared": shared, "thetas": thetas, "levels": levels,
+    # missing values in the data (land points in the middle of a column): the interpolant is undefined on the segments that
+    # touch them and unchanged everywhere else
+    nan_holes = draw(st.lists(st.integers(0, 10 ** 6), min_size=1, max_size=2)) if draw(st.integers(0, 3)) == 0 else []
+    case = {"nan_holes": nan_holes, "L": L, "lead": lead, "method": method, "bypass": bypass, "shared": shared, "thetas": thetas, "levels": levels,
             "per_column_levels": per_column_levels, "phi": phi, "mask_edges": draw(st.booleans()), "level": level, "theta_dtype": theta_dtype,
             "phi_dtype": phi_dtype}
     if level == "api":
@@ -112,11 +115,19 @@ def strategy(tier):
     return strategy_impl(tier)
 
 
+def phi_of(case):
+    """the data, with the drawn missing values put in"""
+    a = np.array(case["phi"], dtype=np.float64)
+    for h in case.get("nan_holes") or []:
+        a.flat[h % a.size] = np.nan
+    return a
+
+
 def reference(case):
     lead = list(case["lead"])
     L = case["L"]
     ncol = int(np.prod(lead, dtype=int)) if lead else 1
-    phi = np.asarray(case["phi"], dtype=np.float64).reshape(ncol, L)
+    phi = phi_of(case).reshape(ncol, L)
     thetas = case["thetas"] if len(case["thetas"]) == ncol else [case["thetas"][0]] * ncol
     levels = case["levels"] if len(case["levels"]) == ncol else [case["levels"][0]] * ncol
     m = len(levels[0])
@@ -132,7 +143,7 @@ def error_bound(case, thetas, rel):
     error of about eps*max|x|, amplified by the steepest slope, plus eps*max|y|."""
     L = case["L"]
     ncol = len(thetas)
-    phi = np.asarray(case["phi"], dtype=np.float64).reshape(ncol, L)
+    phi = np.asarray(case["phi"], dtype=np.float64).reshape(ncol, L)   # (bound from the data without the missing values)
     worst = 0.0
     for c, th in enumerate(thetas):
         x = np.log(np.array(th, dtype=np.float64)) if case["method"] == "log" else np.array(th, dtype=np.float64)
@@ -143,9 +154,12 @@ def error_bound(case, thetas, rel):
     return rel * (worst + 1e-300)
 
 
-def compare(got, exp, what, tol):
+def compare(got, exp, what, tol, skip=None):
     if got.shape != exp.shape:
         raise Violation(f"{what}: shape", got=list(got.shape), expected=list(exp.shape))
+    if skip is not None and skip.any():
+        got = np.where(skip, 0.0, got)
+        exp = np.where(skip, 0.0, exp)
     nan_mismatch = np.isnan(got) != np.isnan(exp)
     if nan_mismatch.any():
         i = tuple(int(x) for x in np.argwhere(nan_mismatch)[0])
@@ -167,7 +181,17 @@ def check(case, ctx):
     ncol = len(thetas)
     pdt = np.dtype(case.get("phi_dtype", "float64"))
     tol = error_bound(case, thetas, (1e-14 if case["method"] == "linear" else 1e-12) if pdt == np.float64 else 2e-6)
-    phi = np.asarray(case["phi"], dtype=np.float64).reshape(tuple(lead) + (L,)).astype(pdt)
+    phi = phi_of(case).reshape(tuple(lead) + (L,)).astype(pdt)
+    # a level that coincides with a knot next to a missing value: the knot's own value and "undefined" are both defensible
+    ambiguous = np.zeros(exp.shape, dtype=bool).reshape(ncol, -1)
+    if case.get("nan_holes"):
+        pc = phi.reshape(ncol, L)
+        for c in range(ncol):
+            for k, lv in enumerate(levels[c]):
+                for j, x in enumerate(thetas[c]):
+                    if lv == x and (np.isnan(pc[c, j]) or (j > 0 and np.isnan(pc[c, j - 1])) or (j < L - 1 and np.isnan(pc[c, j + 1]))):
+                        ambiguous[c, k] = True
+    ambiguous = ambiguous.reshape(exp.shape)
     tdt = case.get("theta_dtype", "float64")
     theta_full = np.array(thetas, dtype=np.float64).reshape(tuple(lead) + (L,)).astype(tdt)
     log = case["method"] == "log"
@@ -178,12 +202,12 @@ def check(case, ctx):
             for c in range(ncol):
                 got = np.asarray(must_return("interp_1d_linear", interp_1d_linear, phi.reshape(ncol, L)[c], theta_full.reshape(ncol, L)[c],
                                              np.array(levels[c], dtype=np.float64), case["mask_edges"], case["bypass"], log))
-                compare(got.astype(np.float64), exp.reshape(ncol, -1)[c], "kernel (single column)", tol)
+                compare(got.astype(np.float64), exp.reshape(ncol, -1)[c], "kernel (single column)", tol, ambiguous.reshape(ncol, -1)[c])
         else:
             th_arg = np.array(thetas[0]).astype(tdt) if (case["shared"] and lead) else theta_full
             got = np.asarray(must_return("interp_1d_linear", interp_1d_linear, phi, th_arg, np.array(levels[0], dtype=np.float64),
                                          case["mask_edges"], case["bypass"], log))
-            compare(got.astype(np.float64), exp, "kernel (all columns)", tol)
+            compare(got.astype(np.float64), exp, "kernel (all columns)", tol, ambiguous)
             # column independence: one column at a time gives the same rows
             flat = got.reshape(ncol, -1)
             for c in range(min(ncol, 3)):
@@ -192,7 +216,7 @@ def check(case, ctx):
                 if not np.array_equal(one, flat[c], equal_nan=True):
                     raise Violation("a column computed alone differs from the same column computed with others", column=c)
     else:
-        run_api(case, phi, thetas, levels, exp, tol)
+        run_api(case, phi, thetas, levels, exp, tol, ambiguous)
 
     dec = any(t[0] > t[-1] for t in thetas)
     unsorted_lv = any(list(lv) != sorted(lv) for lv in levels)
@@ -206,13 +230,15 @@ def check(case, ctx):
         classes.append("mixed-directions")
     if case["per_column_levels"]:
         classes.append("nd-target")
+    if case.get("nan_holes"):
+        classes.append("missing-values-in-data")
     if case["level"] == "api":
         a = case["api"]
         classes += [f"td:{a['td']}", f"target:{a['target_kind']}", f"pos:{a['pos']}", "chunked" if a["chunk"] else "eager", f"suffix:{a['suffix']}"]
     return {"nontrivial": bool(dec or unsorted_lv or edge), "classes": classes}
 
 
-def run_api(case, phi, thetas, levels, exp, tol):
+def run_api(case, phi, thetas, levels, exp, tol, ambiguous=None):
     import xarray as xr
     from xgcm import Grid
 
@@ -293,7 +319,7 @@ def run_api(case, phi, thetas, levels, exp, tol):
     if set(got.dims) != set(want_dims):
         raise Violation("new dimension is not named after the target / target_data", got=list(got.dims), expected=want_dims,
                         target_kind=a["target_kind"], td=a["td"])
-    compare(np.asarray(got.transpose(*want_dims).values), exp, "Grid.transform", tol)
+    compare(np.asarray(got.transpose(*want_dims).values, dtype=np.float64), exp, "Grid.transform", tol, ambiguous)
     if a["name"] is not None:
         suffix = "_transformed" if a["suffix"] is None else a["suffix"]
         if got.name != a["name"] + suffix:
